@@ -34,6 +34,17 @@ TRAINING_LOOP_BODY = ("for X_batch, affinity_batch in self._batchify(X, affinity
                       "    self._update_weights(weights, grads)")
 
 
+# The vocabulary: every callee the interpretation (coq/Model/CoherenceInterp.v) gives a meaning to.  A call outside it is
+# never emitted as an opaque term: a private helper of the same class whose body is inside the vocabulary is inlined
+# (statement-level calls only), anything else makes the translator fail closed.
+SELF_VOCAB = {"_infer", "get_gemini", "_get_weights", "_validate_params", "_init_params", "_compute_kernel", "predict_proba", "predict", "fit"}
+SUPER_VOCAB = {"fit"}
+FN_VOCAB = {"check_array", "validate_data", "check_is_fitted", "check_random_state", "check_groups", "SGDOptimizer", "AdamOptimizer",
+            "range", "gemini_objective"}
+METH_VOCAB = {"compute_affinity", "predict"}
+MAX_INLINE_DEPTH = 3
+
+
 class Unknown(Exception):
     pass
 
@@ -83,10 +94,13 @@ class Ctx:
         self.args = set(args)        # method arguments: EVar
         self.free = set(free)        # loop-state variables allowed to stay free: EVar
         self.env = {}                # inlined locals: name -> Coq text
+        self.methods = {}            # methods of the class being translated (candidates for inlining)
+        self.depth = 0
 
     def copy(self):
         c = Ctx(self.args, self.free)
         c.env = dict(self.env)
+        c.methods, c.depth = self.methods, self.depth
         return c
 
 
@@ -161,19 +175,27 @@ def tr(e, ctx):
             return f"EItem ({tr(f.value, ctx)})"
         if isinstance(f, ast.Attribute):
             if isinstance(f.value, ast.Name) and f.value.id == "self":
+                if f.attr not in SELF_VOCAB:
+                    fail(f"call of self.{f.attr} is outside the vocabulary (and not an inlinable statement-level helper call)", e)
                 return f"ESelfCall {q(f.attr)} {tr_args(e, ctx)}"
             if (isinstance(f.value, ast.Call) and isinstance(f.value.func, ast.Name) and f.value.func.id == "super"
                     and not f.value.args and not f.value.keywords):
+                if f.attr not in SUPER_VOCAB:
+                    fail(f"call of super().{f.attr} is outside the vocabulary", e)
                 return f"ESuperCall {q(f.attr)} {tr_args(e, ctx)}"
             d = dotted(f)
             if d is not None:
-                return f"ECall {q(d)} {tr_args(e, ctx)}"
+                fail(f"call of {d} is outside the vocabulary", e)
+            if f.attr not in METH_VOCAB:
+                fail(f"call of the method .{f.attr} is outside the vocabulary", e)
             return f"EMeth ({tr(f.value, ctx)}) {q(f.attr)} {tr_args(e, ctx)}"
         if isinstance(f, ast.Name):
             if f.id in ctx.env or f.id in ctx.args or f.id in ctx.free:
                 return f"EApply ({tr(f, ctx)}) {tr_args(e, ctx)}"
             if f.id == "super":
                 fail("bare super()", e)
+            if f.id not in FN_VOCAB:
+                fail(f"call of {f.id} is outside the vocabulary", e)
             return f"ECall {q(f.id)} {tr_args(e, ctx)}"
         fail("call of an unsupported callee", e)
     fail(f"unknown expression node {type(e).__name__}: {ast.unparse(e)[:80]}", e)
@@ -193,6 +215,36 @@ def clean(stmts):
     return [s for s in stmts if not is_verbose_print(s) and not is_docstring(s)]
 
 
+def helper_call(v, ctx):
+    """the FunctionDef of a private helper of the same class when v is `self._helper(...)` outside the vocabulary, else None"""
+    if (isinstance(v, ast.Call) and isinstance(v.func, ast.Attribute) and isinstance(v.func.value, ast.Name) and v.func.value.id == "self"
+            and v.func.attr not in SELF_VOCAB and v.func.attr.startswith("_") and v.func.attr in ctx.methods):
+        return ctx.methods[v.func.attr]
+    return None
+
+
+def inline(call, f, ctx, out):
+    """inline `self._helper(args)`: its statements are appended to out, the text of its return value is returned"""
+    if ctx.depth >= MAX_INLINE_DEPTH:
+        fail("helper calls nested too deeply", call)
+    if f.decorator_list or f.args.vararg or f.args.kwarg or f.args.kwonlyargs or f.args.posonlyargs or f.args.defaults:
+        fail(f"helper {f.name}: decorators / defaults / star arguments are not handled", f)
+    params = [a.arg for a in f.args.args]
+    if not params or params[0] != "self" or call.keywords or any(isinstance(a, ast.Starred) for a in call.args) or len(call.args) != len(params) - 1:
+        fail(f"helper {f.name} is not called with exactly its positional arguments", call)
+    sub = Ctx((), ())
+    sub.methods, sub.depth = ctx.methods, ctx.depth + 1
+    sub.env = {p: tr(a, ctx) for p, a in zip(params[1:], call.args)}
+    body = clean(f.body)
+    ret = None
+    if body and isinstance(body[-1], ast.Return):
+        ret, body = body[-1], body[:-1]
+    if any(isinstance(n, ast.Return) for s in body for n in ast.walk(s)):
+        fail(f"helper {f.name} returns from the middle of its body", f)
+    out += tr_stmts(body, sub)
+    return tr(ret.value, sub) if (ret is not None and ret.value is not None) else "ENone"
+
+
 def tr_stmts(stmts, ctx, top=True):
     """-> list of Coq cstmt texts; assignments to local names are inlined (only at the top level of a body)"""
     out = []
@@ -202,13 +254,18 @@ def tr_stmts(stmts, ctx, top=True):
             if isinstance(t, ast.Name):
                 if not top:
                     fail("assignment to a local inside a branch (no join of the two values is modelled)", s)
-                ctx.env[t.id] = tr(s.value, ctx)
+                h = helper_call(s.value, ctx)
+                ctx.env[t.id] = inline(s.value, h, ctx, out) if h is not None else tr(s.value, ctx)
                 continue
             if isinstance(t, ast.Attribute) and isinstance(t.value, ast.Name) and t.value.id == "self":
                 out.append(f"SSetAttr {q(t.attr)} ({tr(s.value, ctx)})")
                 continue
             fail("assignment target that is neither a local nor self.<attr>", s)
         if isinstance(s, ast.Expr) and isinstance(s.value, ast.Call):
+            h = helper_call(s.value, ctx)
+            if h is not None:
+                inline(s.value, h, ctx, out)       # a helper called for its effects: its statements, the value is dropped
+                continue
             out.append(f"SExpr ({tr(s.value, ctx)})")
             continue
         if isinstance(s, ast.If):
@@ -217,7 +274,9 @@ def tr_stmts(stmts, ctx, top=True):
             out.append(f"SIf ({tr(s.test, ctx)}) {lst(th)} {lst(el)}")
             continue
         if isinstance(s, ast.Return) and s.value is not None:
-            out.append(f"SReturn ({tr(s.value, ctx)})")
+            h = helper_call(s.value, ctx)
+            val = inline(s.value, h, ctx, out) if h is not None else tr(s.value, ctx)
+            out.append(f"SReturn ({val})")
             continue
         fail(f"unknown statement {type(s).__name__}: {ast.unparse(s)[:80]}", s)
     return out
@@ -245,6 +304,7 @@ class Source:
         if f.decorator_list or f.args.vararg or f.args.kwarg or f.args.kwonlyargs or f.args.posonlyargs:
             fail(f"{cls}.{name}: decorators / star arguments are not handled", f)
         self.used.append(f"{cls}.{name} lines {f.lineno}-{f.end_lineno}")
+        f._class_methods = {g.name: g for g in cs[0].body if isinstance(g, ast.FunctionDef)}
         return f
 
 
@@ -257,6 +317,7 @@ def arg_names(f, want):
 
 def whole(f, want_args):
     ctx = Ctx(arg_names(f, want_args))
+    ctx.methods = f._class_methods
     return tr_stmts(f.body, ctx)
 
 
@@ -279,6 +340,7 @@ def translate():
     if lp.orelse or not isinstance(lp.target, ast.Name) or len(clean(lp.body)) != 1 or ast.unparse(clean(lp.body)[0]) != TRAINING_LOOP_BODY:
         fail("the epoch loop of DiscriminativeModel.fit differs from the modelled training loop", lp)
     ctx = Ctx(arg_names(fit, ["X", "y"]))
+    ctx.methods = fit._class_methods
     pre = tr_stmts(body[:loops[0]], ctx)
     for need in ("X", "affinity", "random_state", "gemini", "weights"):     # the names the literal loop body reads
         if need not in ctx.env and need not in ctx.args:
@@ -311,6 +373,7 @@ def translate():
         fail("Kauri.fit does not have exactly one top-level while loop", kfit)
     tail = kbody[whiles[0] + 1:]
     kctx = Ctx(arg_names(kfit, ["X", "y"]), free=("Y", "Z"))
+    kctx.methods = kfit._class_methods
     # Y and Z must be the loop-state matrices created before the loop
     made = {ast.unparse(s.targets[0]) for s in kbody[:whiles[0]] if isinstance(s, ast.Assign) and len(s.targets) == 1}
     if not {"Y", "Z"} <= made:
